@@ -365,6 +365,8 @@ func checkEngineParsing(c *Ctx, r *Report, cl map[string]string) {
 				// ... by asking the request whether the parameter was sent, not by looking at the
 				// value that was extracted: an empty value is still a value (a header or query
 				// parameter sent empty is present; `required` and pointer-nilness depend on it)
+				// (statement ends are kept here: the right-hand side ends at the end of its line)
+				toks := goToksStmts(src)
 				for i, tk := range toks {
 					if tk.Tok != token.IDENT || tk.Lit != "isM_NameExists" || i+1 >= len(toks) || (toks[i+1].Tok != token.DEFINE && toks[i+1].Tok != token.ASSIGN) {
 						continue
